@@ -191,6 +191,20 @@ def recipes(group):
             c[role]['expires'] = -3600
         sc['cycles'] = [c]
         out.append((f'{role} metadata expired an hour ago, enforcement on: the cycle must fail', sc, lambda r: r['cycles'][0]['ok']))
+        # the same expired document already sits in the datastore (an earlier cycle ran with enforcement off): still expired
+        sc2 = base_scenario(); c1 = cyc(safe=False); c2 = cyc()
+        for c_ in (c1, c2):
+            if role == 'root': c_['serve_roots'] = {'2': 1}
+            else: c_[role]['expires'] = -3600
+        if role == 'root': sc2['roots'][1]['expires'] = -3600
+        sc2['cycles'] = [c1, c2]
+        out.append((f'{role} metadata expired an hour ago and already stored by an earlier enforcement-off cycle; the enforcement-on cycle must fail', sc2, lambda r: r['cycles'][1]['ok']))
+        # ... and the mirror image: stored while fresh, expired by the time of the next cycle (same version served again)
+        if role != 'root':
+            sc3 = base_scenario(); c1 = cyc(); c2 = cyc(sleep_ms=2500)
+            c2[role]['expires'] = 2
+            sc3['cycles'] = [c1, c2]
+            out.append((f'{role} metadata stored while fresh expires before the next cycle, which is served the same version again: must fail', sc3, lambda r: r['cycles'][0]['ok'] and r['cycles'][1]['ok']))
     if kind in ('expired-err-justified',) and role:
         sc = base_scenario(); c = cyc()
         if role == 'root':
